@@ -486,9 +486,9 @@ def eval_block(draw, m, forms):
     offs = [draw(st.sampled_from(OFFSETS)) for _ in range(m)]
     base = draw(st.sampled_from(OFFSETS))
     if form == 'fixed':
-        shape = (1, m, draw(st.integers(2, 8)))
+        shape = (draw(st.sampled_from([1, 1, 1, 2])), m, draw(st.integers(2, 8)))
     elif form == 'crossvalidation':
-        shape = (1, m, draw(st.integers(2, 5)))
+        shape = (draw(st.sampled_from([1, 1, 1, 3])), m, draw(st.integers(2, 5)))
     elif form == 'boot2':
         shape = (draw(st.integers(2, 12)), m)
     elif form == 'boot3':
